@@ -145,8 +145,8 @@ func GenExpr(r *Rand) Expr {
 		{".a as $x | $x + 1", "variable", false, false},
 		{".d as $d | $d | length", "variable", false, false},
 		{".a as $x | .d[] | . + $x", "variable", false, false},
-		{"path(..)", "construct", false, false},
-		{"[paths]" + "", "construct", false, false},
+		{".. | path", "construct", false, false},
+		{"[.. | path]", "construct", false, false},
 		{scalarPath + " | tag", "construct", false, false},
 		{".c | kind", "construct", false, false},
 		{".d | join(\",\")", "string", false, false},
@@ -213,11 +213,81 @@ func GenExpr(r *Rand) Expr {
 		{"eval(\".a\")", "eval", true, false},
 		{"error(\"boom\")", "error", false, false},
 		{"select(.a > " + n + ") | error(\"boom at \" + .id)", "error", false, false},
+		// operators not covered above, each at least once (all document-local and deterministic)
+		{".d | filter(. > " + n + ")", "construct", false, false},
+		{".c | map_values(. // \"none\")", "construct", false, false},
+		{".d | any_c(. > " + n + ")", "construct", false, false},
+		{".d | all", "construct", false, false},
+		{".e | flatten(1)", "construct", false, false},
+		{"[.d, [.a]] | flatten", "construct", false, false},
+		{".c.x | parent", "path", true, false},
+		{".c.x | parent(2) | .id", "path", true, false},
+		{".e[0].k | parent(1) | .v", "path", true, false},
+		{".d | array_to_map", "construct", false, false},
+				{".a | to_string", "string", false, false},
+		{".b | trim", "string", false, false},
+		{".b | downcase", "string", false, false},
+		{".c | omit([\"x\"])", "construct", false, false},
+		{".a | line_comment", "comments", false, false},
+		{".c | head_comment", "comments", false, false},
+		{". | foot_comment", "comments", false, false},
+		{".c | anchor", "anchors", false, false},
+		{".c | style", "style", false, false},
+		{".. | select(tag == \"!!bool\") | not", "recurse", false, false},
+		{".d[] | select(. % 2 == 0)", "select", true, false},
+		{".a as $x | .c as $y | {\"x\": $x, \"y\": $y.y}", "variable", false, false},
+		{".c.x ref $r | $r = 7", "variable", false, true},
+		{". *+ {\"d\": [99]}", "merge", false, false},
+		{". *? {\"a\": 100, \"zz\": 1}", "merge", false, false},
+		{". *d {\"c\": {\"x\": 0}}", "merge", false, false},
+		{". *n {\"a\": 100, \"zz\": 1}", "merge", false, false},
+						{".d - [" + n + "]", "construct", false, false},
+		{".d + .d", "construct", false, false},
+		{".c + {\"w\": 1}", "construct", false, false},
+		{".a / 2", "construct", false, false},
+		{".b * 2", "string", false, false},
+		{"[.a, .b, .f, .g] | map(type)", "construct", false, false},
+		{"[.a, .b, .f, .g] | map(kind)", "construct", false, false},
+		{".e | map(has(\"w\"))", "construct", false, false},
+		{".d | .[0]", "path", true, false},
+		{".c | to_entries | map(.key)", "construct", false, false},
+		{".c | with_entries(select(.value != null))", "entries", false, false},
+		{".e | map(select(.k | test(\"a\")))", "construct", false, false},
+		{".b | match(\"[a-z]+\"; \"g\") | .string", "regex", false, false},
+		{".b | capture(\"(?P<first>[a-z])\")", "regex", false, false},
+		{".b | sub(\"[aeiou]\"; \"_\")", "regex", false, false},
+		{".b | split(\"\") | length", "string", false, false},
+		{".id | @base64", "encode", false, false},
+		{".c | to_xml", "encode", false, false},
+		{".c | to_props", "encode", false, false},
+		{".d | @tsv", "encode", false, false},
+		{".c | to_yaml | from_yaml", "encode", false, false},
+		{".c | @yaml", "encode", false, false},
+		{".b | @sh", "encode", false, false},
+		{"\"1700000000\" | to_number | from_unix", "datetime", false, false},
+		{"\"2021-05-06T07:08:09Z\" | format_datetime(\"2006-01-02\")", "datetime", false, false},
+		{"\"2021-05-06T07:08:09Z\" | to_unix", "datetime", false, false},
+		{"with_dtf(\"2006-01-02\"; \"2021-05-06\" | format_datetime(\"Jan 2\"))", "datetime", false, false},
+		{"explode(.c)", "anchors", true, true},
+		{".e |= map(. * {\"seen\": true})", "assign", true, true},
+		{"del(.e[] | select(.k == " + q(w) + "))", "delete", true, true},
+		{"del(.c.missing)", "delete", true, true},
+		{"del(.d[1:])", "delete", true, true},
+		{"to_entries | map(select(.key != \"d\")) | from_entries", "entries", false, false},
+		{".d |= map(. + 1)", "assign", true, true},
+		{".d[1:] = [0]", "assign", true, true},
+		{".e[] |= pick([\"k\"])", "assign", true, true},
+		{".c |= sort_keys(.)", "sort", true, true},
+		{".e |= (sort_by(.v) | reverse)", "sort", true, true},
+		{".d |= unique", "assign", true, true},
+		{"(.a, .c.x) |= . * 2", "assign", true, true},
+		{"(.. | select(tag == \"!!int\")) |= . + 1", "assign", true, true},
+		{"(.. | select(tag == \"!!str\")) |= upcase", "assign", true, true},
 		{"setpath([\"a\"]; 9)", "paths", true, true},
 		{"setpath([\"c\", \"deep\"]; .a)", "paths", true, true},
 		{"delpaths([[\"a\"], [\"c\", \"x\"]])", "paths", true, true},
-		{"[paths] | length", "paths", false, false},
-		{"[paths(type == \"!!int\")]", "paths", false, false},
+		{"[.. | path] | length", "paths", false, false},
+		{"[.. | select(tag == \"!!int\") | path]", "paths", false, false},
 		{"pick([\"id\", \"c\"]) | .c |= pick([\"x\"])", "paths", false, false},
 		{".d[5] = 1", "assign", true, true},
 		// literals of the expression that are updated with document data: the parsed tree must not keep the update
@@ -345,7 +415,7 @@ var ExprThemes = map[string][]string{
 		".e[] as $i ireduce ({\"n\": 0}; .n += $i.v)", "[1, 2] | .[0] += 5", "\"s\" | . += \"t\"", ".acc = {\"k\": []} | .acc.k += [.id]", ".a = 5", ".c.new = \"v\"", "{\"k\": .a}", "[.a]",
 	},
 	"pathtypes": {
-		"setpath(.p; \"v\")", "getpath(.p)", "delpaths([.p])", ".a[1] = \"v\"", ".a.\"1\" = \"v\"", ".a[\"1\"] = \"v\"", "setpath([\"a\", 1]; \"v\")", "setpath([\"a\", \"1\"]; \"v\")", ".p as $p | setpath($p; 1)", "[paths]", "path(..)", ".k.sub", ".\"k sub\" = 2", "setpath([\"k sub\"]; 3)", "setpath([\"k\", \"sub\"]; 3)",
+		"setpath(.p; \"v\")", "getpath(.p)", "delpaths([.p])", ".a[1] = \"v\"", ".a.\"1\" = \"v\"", ".a[\"1\"] = \"v\"", "setpath([\"a\", 1]; \"v\")", "setpath([\"a\", \"1\"]; \"v\")", ".p as $p | setpath($p; 1)", "[.. | path]", ".. | path", ".k.sub", ".\"k sub\" = 2", "setpath([\"k sub\"]; 3)", "setpath([\"k\", \"sub\"]; 3)",
 	},
 	"goccy":      {"."},
 	"loadshared": {"."},
